@@ -271,6 +271,31 @@ def check_apply(o):
     d = same(s0, state(s))
     if d:
         bad.append(("apply on the raw arrays modified the input: " + d, {}, None))
+    # the same numbers whatever the batch size, and whatever number type the caller's coordinates come in
+    if c["t"]["kind"] not in ("pwa",):
+        want_pts = np.asarray(r.points, dtype=float)
+        P = np.asarray(s.points)
+        for b in (2, 3, 1000):
+            rb = t.apply(s, batch_size=b)
+            d = same(_pts_tree(r), _pts_tree(rb), 1e-12)
+            if d:
+                bad.append(("apply(shape, batch_size=%d) differs from the unbatched result: %s" % (b, d), {}, None))
+                break
+        if True:
+            # (whole-number coordinates on the half-unit grid of the pooled points; the float64 unbatched route, whose values
+            #  were compared with the specification above, is the reference)
+            Pi = np.round(P * 2.0)
+            want_pts = np.asarray(t.apply(Pi.copy()), dtype=float)
+            for dt in (np.int64, np.int32, np.float32):
+                for b in (None, 2):
+                    got = np.asarray(t.apply(Pi.astype(dt), batch_size=b), dtype=float)
+                    if got.shape != want_pts.shape or not np.allclose(got, want_pts, atol=1e-4 if dt is np.float32 else 1e-9, rtol=0):
+                        bad.append(("apply on a bare %s coordinate array (batch_size=%r) does not give the transformed points" % (np.dtype(dt).name, b),
+                                    {"got": got, "want": want_pts}, None))
+                        break
+                else:
+                    continue
+                break
     return bad
 
 
